@@ -1,6 +1,7 @@
 package spine
 
 import (
+	"errors"
 	"fmt"
 
 	"github.com/ahmetb/go-linq/v3"
@@ -62,6 +63,9 @@ func (r *NodeManagement) handleMsgSubscriptionData(message *api.Message) error {
 func (r *NodeManagement) handleMsgSubscriptionRequestCall(message *api.Message, data *model.NodeManagementSubscriptionRequestCallType) error {
 	switch message.CmdClassifier {
 	case model.CmdClassifierTypeCall:
+		if data.SubscriptionRequest == nil {
+			return errors.New("nodemanagement.handleSubscriptionRequestCall: subscriptionRequest is missing")
+		}
 		subscriptionMgr := r.Device().SubscriptionManager()
 
 		return subscriptionMgr.AddSubscription(message.FeatureRemote.Device(), *data.SubscriptionRequest)
@@ -74,6 +78,9 @@ func (r *NodeManagement) handleMsgSubscriptionRequestCall(message *api.Message, 
 func (r *NodeManagement) handleMsgSubscriptionDeleteCall(message *api.Message, data *model.NodeManagementSubscriptionDeleteCallType) error {
 	switch message.CmdClassifier {
 	case model.CmdClassifierTypeCall:
+		if data.SubscriptionDelete == nil {
+			return errors.New("nodemanagement.handleSubscriptionDeleteCall: subscriptionDelete is missing")
+		}
 		subscriptionMgr := r.Device().SubscriptionManager()
 
 		return subscriptionMgr.RemoveSubscription(*data.SubscriptionDelete, message.FeatureRemote.Device())
